@@ -27,6 +27,18 @@ func cmdDiscover(args []string) int {
 	switch args[0] {
 	case "guard":
 		discoverGuards(p)
+	case "dbglit":
+		conv := p.Method("/iscp", "DataPointGroups", "toUpstreamDataPointGroups")
+		n := p.Named("/message", "DataPointGroup")
+		fmt.Println(conv, n)
+		allInstrs(conv, func(ins ssa.Instruction) {
+			if a, ok := ins.(*ssa.Alloc); ok {
+				fmt.Println("alloc", a.Name(), a.Type(), a.Comment, namedOf(deref(a.Type())))
+			}
+		})
+		for _, lit := range literalsOf(conv, n) {
+			fmt.Println(lit.Alloc.Name(), lit.Fields)
+		}
 	case "literals":
 		// print every struct literal of a message.* type in iscp/wire with the provenance of each field
 		for _, fn := range p.Funcs {
